@@ -20,7 +20,7 @@ fn err(e: impl std::fmt::Display) -> Value {
     json!({"tag":"err","msg": format!("{e:#}")})
 }
 fn ids_to<'a>(it: impl IntoIterator<Item = &'a u64>) -> Value {
-    Value::Array(it.into_iter().map(|x| json!(x)).collect())
+    Value::Array(it.into_iter().map(|x| json!(crate::shape::down(*x))).collect())
 }
 fn sol_or_err(r: anyhow::Result<(v1::Solution, BTreeSet<u64>)>) -> Value {
     match r {
